@@ -39,6 +39,9 @@ short = {
     'C04-9': 'limit: the portion count restarts when Interval passes while waiting for input, the duration is still measured from the old start: 3*Quantity-1 in one burst after a partial portion and an idle boundary (two cooperating sites)',
     'C12-15': 'limit: the pause is rounded to a multiple of 10 ms: Interval 16 ms is throttled to 20 ms',
     'C14-11': 'v2 Rate: dividend converted through float32: dividends above 2^24 are divided wrongly (total still conserved)',
+    'C03-17': 'unite: emptiness of the accumulator judged by a counter of united input slices: an empty / nil input slice makes the next flush emit an empty output slice',
+    'C10-15': 'v2 join: an element received shortly before expiry suppresses the next tick: flush one tick interval late (needs an accumulation period out of phase with the ticker)',
+    'C20-15': 'v1 Simple: Err() closed before the handlers are waited for (same code change as C07-2): the caller reading its results after Err() races with Handle calls still finishing after Stop / cancel',
     'C14-1': 'v2 Rate: leftover added as one unit (`++`): not conserved with >= 5 priorities',
     'C14-2': 'v1 Rate: multiply before divide: differs from v2 on exact-half shares',
     'C15-1': 'v2: error of the first recalc division ignored: a one-shot fault there goes unreported',
@@ -164,13 +167,13 @@ def main():
       '   different: another mechanism, code site or trigger): rounds 1 and 2 for all 20 properties, round 3 for the 14\n'
       '   behavioural properties of the priority / join / limit disciplines, round 4 for the rest (C04 C10 C13 C14 C18\n'
       '   C20), round 5 for the 12 properties with the most misses so far, round 6 for the other 8, round 7 for 17 properties\n'
-      '   (all but C04, C13, C18), round 8 for 13, round 9 for 15, round 10 for 10 and two last short rounds of one change per property, round 11 for C01, C04, C13, C18 and round 12 for C04, C12, C14 (from round 8 on the harness was frozen until the changes had been run;\n'
+      '   (all but C04, C13, C18), round 8 for 13, round 9 for 15, round 10 for 10 and three last short rounds of one change per property, round 11 for C01, C04, C13, C18, round 12 for C04, C12, C14 and round 13 for C03, C10, C20 (from round 8 on the harness was frozen until the changes had been run;\n'
       '   the C01 agent of round 9 found no change that breaks the capacity bound and still passes the existing suite;\n'
       '   in round 11 the changes written for C01 and C04 made the existing suite fail or hang and were not kept):\n'
       '   %d changes. **Caught by the owning check at the first try: round 1: 32 of 40; round\n'
       '   2: 28 of 40; round 3: 19 of 28; round 4: 10 of 12; round 5: 17 of 24; round 6: 13 of 16; round 7: 24 of 35\n'
       '   (four of the eleven misses were closed on reading the agents\' reports, before the changes were run); round\n'
-      '   8: 20 of 26; round 9: 22 of 28; round 10: 16 of 20; round 11: 2 of 2; round 12: 3 of 3.** Each miss showed a real weakness - a workload that was too\n'
+      '   8: 20 of 26; round 9: 22 of 28; round 10: 16 of 20; round 11: 2 of 2; round 12: 3 of 3; round 13: 2 of 3.** Each miss showed a real weakness - a workload that was too\n'
       '   narrow (unusual configurations above all), an oracle that was sound but too weak, an observation taken too\n'
       '   late, or instrumentation that synchronised what it was supposed to watch - and was closed by strengthening\n'
       '   the monitor, never by special-casing the change. After that all are caught by the owning check, except\n'
@@ -236,7 +239,8 @@ def main():
       '   that holds for any consumer; C16-13 -> Stop() after a divider fault whose error nobody read; C17-14 ->\n'
       '   re-adding a removed priority with its original channel object. Round 10: C11-16 -> timeouts of years;\n'
       '   C17-15 -> AddInput with a nil channel; C19-16 -> blocked goroutines at the instant GracefulStop() returns,\n'
-      '   also when it was cut short. `meta.json` of each change records what was run and seen.\n')
+      '   also when it was cut short. Round 13: C20-15 -> in v1 Simple the caller reads what its Handle\n'
+      '   calls wrote right after Err() closed also when Stop() / cancel ended the discipline (bare race family). `meta.json` of each change records what was run and seen.\n')
     if seeded:
         def listed(n, c):
             try:
@@ -250,7 +254,7 @@ def main():
           '   check) pairs, %d caught%s. An earlier full re-run (after round 8) had shown five detections to be fragile at the\n'
           '   quick tier (C01-7, C02-11, C08-7, C15-6, C20-9: caught at one seed in three) and this one a sixth (C01-3, two\n'
           '   in three; its line is from the re-run after the fix); their workloads were made denser until each was caught at\n'
-          '   seeds 1, 2 and 3. The 25 changes of rounds 10, 11 and 12 were run against their checks one by one (`tools/round_batch.sh`,\n'
+          '   seeds 1, 2 and 3. The 28 changes of rounds 10 to 13 were run against their checks one by one (`tools/round_batch.sh`,\n'
           '   results in their `meta.json`).\n' % (sum(len(l) for l in seeded.values()), sum(1 for l in seeded.values() for c, v in l if v == 'CAUGHT'),
                                          '' if not bad else '; not caught: ' + ', '.join('%s/%s(%s)' % b for b in bad)))
     w('4. Anything a realistic break leaves invisible gets more observability (another workload or observation\n'
